@@ -29,6 +29,10 @@ var c09Extra = []string{
 	"set f to transform if match == 'a' then set x to 1 else set x to 'q' end return x * 2 end replace all any with f",
 	"set f to transform set x to 1 if match == 'a' then set x to 'q' end return x / 1 end replace all any with f",
 	"set f to transform set x to 'q' loop set x to 1 break end return x - 'a' end replace all any with f",
+	// a transform used twice in one with-list and on several matches, whose variables are read before they are assigned
+	"set t to transform set out to seen + 'x' set seen to true return out end replace all any with t t",
+	"set t to transform set out to n + 1 set n to 2 return out end replace all any with t '-' t",
+	"set t to transform set out to head w set w to matchLength return out + w end set u to transform return w + 'u' end replace all any with t u t",
 	"find all (at least 1 'a') = x ('b') = y 'c'", "find all (maybe 'a' 'b') = x (any) = y 'c'", "find all (at least 1 letter) = k '=' (at least 1 digit) = v",
 	"find all {('a' maybe s 'b') = x} = s", "find all ((any = x) (any = y)) = z 'c'", "find all (at least 1 ('a' or 'b')) = x (at least 1 'c') = y 'd'",
 	"replace all any with", "replace all any with nothing", "replace all (any = value) with value matchNumber", "replace all any with ''",
